@@ -104,6 +104,10 @@ def hashMap (m : List (Bytes × Bytes)) : Int :=
   let enc := fun (acc : Nat) (bs : Bytes) => bs.foldl (fun a c => a * 259 + (c.toNat + 3)) acc
   ((m.foldl (fun acc kv => (enc ((enc acc kv.1) * 259 + 1) kv.2) * 259 + 2) 1 : Nat) : Int)
 
+/-- square root rounded down to three decimals (any function does: the SQL side and the direct reading share it) -/
+def sqrtMilli (x : Rat) : Rat :=
+  if x ≤ 0 then 0 else ((Nat.sqrt (x * 1000000).floor.toNat : Nat) : Int) / (1000 : Int)
+
 def oracles : Oracles where
   reMatch := fun pat s => isSub pat s
   jsonLabels := docLabels
@@ -112,6 +116,7 @@ def oracles : Oracles where
   lower := fun s => s.map (fun c => if 65 ≤ c ∧ c ≤ 90 then c + 32 else c)
   toFloat := fun s => (decRat? s).getD 0
   cityHash := hashMap
+  sqrt := sqrtMilli
 
 def fields (s : String) : List String := s.splitOn ":"
 
@@ -155,6 +160,12 @@ def handle : List String → Option String
     if supportedU q && plan != specTs then some s!"diff {showTable plan} {showTable specTs} theorem-rhs-differs:{shapeName q} {stageCount c q}"
     else if plan == spec then some s!"ok {plan.length} {cls}"
     else some s!"diff {showTable plan} {showTable spec} {cls}"
+  | "c08rows" :: args => do
+    -- the rows the generated statement returns (reference interpreter `Sql.evalSelA` on the plan whose text is the real planner's)
+    let (c, rest) ← mctx? args
+    let (q, rest') ← query? rest
+    let d ← db? rest'
+    some (showTable ((evalSelA oracles (d.toDbM c) (planMetric c q)).map normRow))
   | "c08post" :: fromNs :: toNs :: step :: d :: es :: [] => do
     let es ← list? mentry? es
     let (f, t, st, dd) := (← fromNs.toInt?, ← toNs.toInt?, ← step.toInt?, ← d.toInt?)
